@@ -6,6 +6,22 @@ ROOT = os.path.dirname(os.path.dirname(os.path.abspath(__file__)))
 
 # id -> (technique, level text, level note, design ref)
 CLAIMED = {
+ "C02": ("SSA guard dominance with value identity (same block index i across weak, length and strong comparisons) + who-may-call for checksum definitions + field-store provenance of the seed",
+         "Partial, structural: a block reference is emitted only after weak, length and strong (seeded MD4, sliced by the negotiated length) comparisons for that same block; one shared checksum definition used by both ends with the session seed; the whole-file trailer is always sent. Exactness of offsets/windows/arithmetic is NOT decided.",
+         "Trusted: MD4. Not covered: window arithmetic in mapStruct/matched/receiveData.",
+         "DESIGN.md §3 C02"),
+ "C06": ("API confinement over the reachable call graph + SSA provenance of the os.OpenRoot argument (phi-edge guards) + interface-implementation enumeration",
+         "Decides the capability argument: the sender reads only through FileSource, whose only implementations are an os.Root wrapper and the module's fs.FS; the single os.OpenRoot takes the configured module path (request text only for the implicit \"/\" module); the module handed to the session is an element of the configured table.",
+         "Trusted: os.Root refuses escaping symlinks/.. ; fs.FS implementations supplied by embedders.",
+         "DESIGN.md §3 C06"),
+ "C12": ("decision-table extraction by path enumeration over the SSA CFG with provenance-identified atoms, compared with a specification procedure",
+         "Decides that skipFile implements exactly size → (-c: content checksum) → (-I: always) → mtime at one-second granularity, and that recvGenerator requests a regular entry iff missing / not regular / skipFile false, for every path (unknown conditions explored both ways). Behaviour of time.Time and of repeat syncs end-to-end is not decided.",
+         "Trusted: time.Truncate/Equal, bytes.Equal. Fail-closed: an unrecognised condition in skipFile makes the check fail as undecided.",
+         "DESIGN.md §3 C12"),
+ "C19": ("decision-table extraction by path enumeration over the SSA CFG (atoms by operand provenance) + guard dominance of the OK reply",
+         "Decides that checkACL's complete path table equals first-match allow/deny with default allow and error on a malformed rule reached, using net.IPNet.Contains on the parsed peer address; that the OK reply and the session start are dominated by a successful module lookup and ACL check with the accepted connection's address; and that no other caller reaches handleConn.",
+         "Trusted: package net semantics (IPv4-mapped normalisation in IPNet.Contains). Fail-closed on unrecognised conditions.",
+         "DESIGN.md §3 C19"),
  "C03": ("SSA must-pass-through (guard dominance) + value provenance of the compared buffers + use-set (typestate) of the pending file",
          "Decides: every CloseAtomicallyReplace is dominated by bytes.Equal(full h.Sum(nil), full trailer read from the wire)==true; the pending file is only ever written through io.MultiWriter(out,h) with the same seeded hash; hash seeding identical on both ends; no replace-on-close API anywhere; the error of receiveData is propagated at every call site up to the session result. Does not decide that MD4 detects every corruption.",
          "Trusted: MD4 (probabilistic), renameio semantics. The idiom set for error propagation is the repository's (`if err != nil {return}` / `return f()`).",
